@@ -141,7 +141,7 @@ def gen_cases(tier, rng):
     graphs = []
     for n in (2, 3):
         graphs += [g for g in oracles.all_admgs(n)]
-    for _ in range(150 if tier == "quick" else 6000):
+    for _ in range(450 if tier == "quick" else 6000):
         n = rng.choice([4, 4, 5])
         vs, d, u = oracles.random_admg(rng, n, p_d=rng.choice([0.35, 0.55]), p_u=rng.choice([0.15, 0.3]))
         graphs.append((vs, d, u[:4]))
@@ -154,8 +154,15 @@ def gen_cases(tier, rng):
             ys = rng.sample(rest, rng.randint(1, min(2, len(rest))))
             nd = rng.choice([0, 1, 1, 2])
             doms = {f"pi{i + 1}": dom(vs) for i in range(nd)}
-            yield {"nodes": vs, "directed": d, "undirected": u, "X": xs, "Y": ys, "domains": doms, "seed": rng.randrange(1 << 30),
-                   "reverse_dicts": nd == 2 and rng.random() < 0.5}
+            c = {"nodes": vs, "directed": d, "undirected": u, "X": xs, "Y": ys, "domains": doms, "seed": rng.randrange(1 << 30),
+                 "reverse_dicts": nd == 2 and rng.random() < 0.5}
+            if rng.random() < 0.25:
+                # user variables with underscores / digits in their names (selection nodes are recognised by a name prefix)
+                ren = dict(zip(vs, ["X_1", "bmi_score", "Y_2", "w_0_z", "k_9"]))
+                r = lambda xs_: [ren[v] for v in xs_]
+                c = dict(c, nodes=r(vs), directed=[r(e) for e in d], undirected=[r(e) for e in u], X=r(xs), Y=r(ys),
+                         domains={k: {"Z": r(v["Z"]), "W": r(v["W"])} for k, v in doms.items()})
+            yield c
 
 
 def _eval(c):
